@@ -46,6 +46,9 @@ def growth_case(rng, d, cid, tier):
             if rng.random() < 0.3:
                 ops.append(('R', gc * cs, k * cs))
         ops.append(('F',))
+        if nl1 * 8 > cs:
+            # the grown L1 table needs more clusters than the table of the image occupies (known finding F31)
+            kind = 'l1x'
         return {'kind': kind, 'g': g, 'ops': ops, 'images': images, 'flat': flat, 'tail': None}
     if kind == 'reftable':
         # an image made by someone else: its refcount table is only as large as its current host file needs
@@ -176,7 +179,7 @@ def run(tier, seed, replay):
         ccases.append({'cid': cid, 'g': g, 'ops': gc['ops'], 'text': text, 'kind': gc['kind'] + '-crash', 'tail': gc['tail']})
     cobs = seqrun.run_cases_text(dcr, [(c['cid'], c['text']) for c in ccases], timeout=900)
     for c in ccases:
-        for (cls, cc, desc, data) in crash.safety_finds(c, dcr, rng, 150 if tier == 'quick' else 600, cstats, max_points=(40 if tier == 'quick' else 150),
+        for (cls, cc, desc, data) in crash.safety_finds(c, dcr, rng, 60 if tier == 'quick' else 600, cstats, max_points=(24 if tier == 'quick' else 150),
                                                           verdict=('safe_sl1' if c['kind'].startswith('l1') else 'safe')):
             finds.append((cls, c, desc))
     # correspondence of the device model (whose growth theorems are Props/C12.v) with the library on growth histories
